@@ -603,6 +603,9 @@ def calculate_1d_bins(
     elif isinstance(_, BinningBase):
         # A copy: the binning of another histogram must not grow along with the new one
         binning = _.copy()
+        if binning.is_adaptive() and array is not None and array.size:
+            # Adaptive bins cover all the data they are constructed with
+            binning.force_bin_existence(array)
     elif isinstance(_, int):
         binning = numpy_binning(array, _, **kwargs)
     elif isinstance(_, str):
